@@ -458,6 +458,12 @@ class World:
             fam = Fam(nid, self.clock, t, t.shape)
             fam.members[h] = None
             ids = None
+            b = t.base if self.tracking else None
+            if b is not None and b.base is None and t.data.base is not None and b.data.size and np.shares_memory(b.data, t.data) and not any(b is x for x in self.T.values()):
+                # a composite (multi_matmul) handed out a view of an internal result: that hidden
+                # tensor owns the memory and is what .base of this tensor and of its views names
+                fam.owner_ref = weakref.ref(b)
+            del b
         else:
             fam.members[h] = ids
         i.fam = fam
@@ -780,7 +786,13 @@ class World:
             out = Outcome(st, type(e).__name__, str(e)[:200], expected_fail=expect_fail, fault=("kernel" if ev.get("kf") else "natural"))
             del rargs, kw
             return out
+        same = any(t is x for x in rargs)
         del rargs, kw
+        if same:
+            # the operand itself came back (atleast_kd of a tensor that already has k dimensions,
+            # as in NumPy): no new tensor to track
+            del t
+            return self._skip("identity")
         if od.name == "getitem" and isinstance(t, Tensor):
             self._check_index_untouched(t, p.get("index"))
         if not isinstance(t, Tensor):
